@@ -156,6 +156,9 @@ func (e *c15Explorer) script(script []string, only *c15Case) {
 		panic(err)
 	}
 	e.r.Add("evaluations", 1)
+	// the directory of the run is gone from here on: every crash state is recovered in ANOTHER directory, as after
+	// a move of the data directory (absolute paths remembered in .frac-cache point to nothing)
+	os.RemoveAll(dir)
 	c0 := c15Case{Script: script, K: -1}
 	if jr.Died || jr.Hung || res.LoadErr != "" {
 		e.r.Violation(fmt.Sprintf("script died script=%v cause=%s", script, normCause(firstCause(jr.Stderr)+res.LoadErr)), c0, tailStr(jr.Stderr, 1500))
